@@ -75,6 +75,16 @@ func (P *Prog) verifyFunction(fn *ssa.Function, spec *FuncSpec) *Unit {
 		pt := fv.Type().(*types.Pointer)
 		fr.regs[fv] = Val{T: fv.Type(), S: t, A: &Addr{Kind: aHeap, Ref: t, BaseT: pt.Elem()}}
 	}
+	// the closure value itself ("self"): its environment holds the captured cells
+	if len(fn.FreeVars) > 0 || fn.Parent() != nil {
+		self := vc.fresh("self", "Int")
+		vc.assume("(and (< 0 " + self + ") (< " + self + " " + st.alloc + "))")
+		for i, fv := range fn.FreeVars {
+			vc.useCloEnv(i)
+			vc.assume(fmt.Sprintf("(= (clo_env_%d %s) %s)", i, self, fr.regs[fv].S))
+		}
+		fr.names["self"] = Val{T: fn.Type(), S: self, Fn: fn}
+	}
 	// distinct captured cells
 	if len(fn.FreeVars) > 1 {
 		var ts []string
